@@ -11,6 +11,7 @@ EXTENTS = {
     "Pomerol::StatesClassification::StateBlockIndex": "Pomerol::StatesClassification::StateSize",
     "Pomerol::IndexClassification::IndicesToInfo": "Pomerol::IndexClassification::IndexSize",
     "Pomerol::DynamicIndexCombination::Indices": "Pomerol::DynamicIndexCombination::N",
+    "Pomerol::Symmetrizer::QuantumNumbers::numbers": "Pomerol::Symmetrizer::QuantumNumbers::amount",
 }
 # extents that are exclusive upper bounds of a *label space* (valid labels are 0..E-1)
 LABEL_EXTENTS = ("Pomerol::StatesClassification::StateSize", "Pomerol::IndexClassification::IndexSize",
@@ -129,8 +130,6 @@ def body(chk, db, cfgname):
     # ------------------------------------------------------------------ R3
     r3 = chk.rule("C17-R3", "bounds guards agree with the extent of what they protect (exclusive upper bounds)", "F8 guards", 8)
     for f in fns:
-        if f.rec is None:
-            continue
         ctx = None
         # (a) guarded subscripts on containers with a frozen extent
         for j, n in f.walk(f.body):
